@@ -45,6 +45,8 @@ ShapeLaw(dir, t, m) ==
     /\ DirOf(m) = dir
     /\ ResEq(Res(Decode(dir, Encode(m))), <<"ok", m>>)    \* round trip
     /\ Unambiguous(dir, Encode(m))
+    /\ IdsWritten(m, Encode(m))                           \* identifiers are where IdNodes looks
+    /\ IdsWritten(m, t)
 
 Bump(str) == [str EXCEPT ![20] = (str[20] + 1) % 256]
 
